@@ -146,6 +146,24 @@ def h_fixture(ctx, modname, clsname, variant, role):
     return obs
 
 
+def h_fixture_twice(ctx, modname, clsname, has_list):
+    """two stanzas of the documented shape (independent values, different list members) converted one after the other in one process:
+    the second comes back as itself -- nothing of the first conversion is left in it"""
+    Ent, node = _load_fixture(modname, clsname)
+    keep = SC.DISCRIMINATORS + KEEP_EXTRA.get(Ent.__name__, ())
+    lv = 1 if has_list else None
+    sym1 = SC.symbolise(ctx, node, namer=SC.Namer("a"), list_variant=lv, keep=keep)
+    sym2 = SC.symbolise(ctx, node, namer=SC.Namer("b"), list_variant=lv, keep=keep)
+    SC.assume_distinct_members(ctx, sym1, sym2)
+    ent1 = Ent.fromProtocolTreeNode(sym1)
+    if ent1 is not None:
+        ent1.toProtocolTreeNode()
+    ent2 = Ent.fromProtocolTreeNode(sym2)
+    if ent2 is None:
+        return [("the parser returns an entity for the documented stanza", False)]
+    return SC.node_obs("second", ent2.toProtocolTreeNode(), sym2)
+
+
 def finding_key(case, label, values, where):
     """stable identification of a finding: entity test class + variant + what differs"""
     import re
@@ -219,6 +237,8 @@ def cases(tier):
                 variants.append("without-" + opt)
         if _has_text_leaf(node) and "in" in roles:
             variants.append("textdata")
+        if "in" in roles:
+            cs.append(dict(name="fixture[%s,in,second conversion]" % short, fn=h_fixture_twice, args=(modname, name, has_list), timeout_s=120, max_paths=3000, keep_samples=3))
         for role in roles:
             for v in variants:
                 cs.append(dict(name="fixture[%s,%s,%s]" % (short, role, v), fn=h_fixture, args=(modname, name, v, role), timeout_s=120, max_paths=3000, keep_samples=3))
